@@ -55,9 +55,9 @@ type c15Case struct {
 	Kind string // "dir" or "archive"
 
 	// build options (both kinds)
-	SizeMax    int // 0 = default
-	TrigramMax int // 0 = default
-	ShardMax   int // 0 = default
+	SizeMax    int      // 0 = default
+	TrigramMax int      // 0 = default
+	ShardMax   int      // 0 = default
 	LargeFiles []string `json:",omitempty"`
 
 	// directory
